@@ -34,7 +34,10 @@ def degrees_close_not_equal(a_deg: list, b_deg: list, r: int, k: int) -> bool:
             return False
         if av[r] != bv[0]:
             if not close_enough((av[r],), bv, ULP_REL):
-                return False
+                # activation degrees live on the scale of 1: 1 - (1 - 6.7e-16) vs 0 is the same last-bit noise
+                x, y = (float("nan") if t == "nan" else float.fromhex(t) for t in (av[r], bv[0]))
+                if not (x == x and y == y and abs(x - y) <= ULP_REL):
+                    return False
             differs = True
     return differs
 
